@@ -118,6 +118,9 @@ func (c *compiler) expandExpression(expr []token, line int) ([]token, error) {
 				output = append(output, tok)
 			}
 		}
+		if len(output) > maxExpressionTokens {
+			return nil, fmt.Errorf("expression expands to more than %d tokens", maxExpressionTokens)
+		}
 	}
 	return output, nil
 }
